@@ -8,6 +8,12 @@ Point(c1, model=m1).coords(m2) (unit objects and composite arrays of several sha
 of conversions are walked through the LTS; every emitted pair is replayed through
 Point.distance and compared with the exact cosh^2; each model's closed form is evaluated on
 the library's own coordinates; metric laws are evaluated on the library's values.
+The caller's coordinate arrays are handed to the library as they are (not copies) and must still
+hold the spec's coordinates afterwards; rebuilding from the same array gives the same point.
+Query histories of HypPoints.tla (HInit / HNext: build from coordinates in a model, then a
+sequence of queries) are executed on one live object; every array handed out is kept (not
+copied) and re-compared with the spec value after every later query.  Distances are also taken
+between points supplied through different models (DPAIRS) and different representatives (REPS).
 """
 import itertools
 import json
@@ -53,23 +59,31 @@ def coords_equal(m, got, want, tol=TOL):
     return err <= tol * scale
 
 
-def conversion_lts(run, n, B):
-    c = core.cfg(constants=dict(N=n, B=B, MaxSteps=1), invariants=["PointFixed", "InModel"], view="View",
+def conversion_lts(run, n, B, bpair, bhist, depth):
+    """one TLC run per dimension: conversion transitions (EMIT), query histories (HIST), tables (FAR, DPAIRS, ...)"""
+    c = core.cfg(constants=dict(N=n, B=B, MaxSteps=1, BPair=bpair, BHist=bhist, MaxQueries=depth),
+                 invariants=["PointFixed", "InModel", "HeldValid", "OriginDistance", "EmitHist"], view="View",
                  action_constraints=["Emit"])
     r = run.tlc("hyp/HypPoints.tla", c, name="HypPoints_n%d" % n, workers=min(8, core.NCPU))
-    far, farpairs, near = None, None, None
+    far, farpairs, near, dpairs = None, None, None, None
+    hist = []
     for line in r.stdout.splitlines():
+        if line.startswith('"HIST '):
+            hist.append(json.loads(json.loads(line)[5:]))
+            continue
+        if line.startswith('"DPAIRS '):
+            dpairs = json.loads(json.loads(line)[7:])
         if line.startswith('"NEARPAIRS '):
             near = json.loads(json.loads(line)[10:])
         if line.startswith('"FAR '):
             far = json.loads(json.loads(line)[4:])
         if line.startswith('"FARPAIRS '):
             farpairs = json.loads(json.loads(line)[9:])
-    if far is None or farpairs is None:
-        raise core.MachineryFailure("no FAR tables printed by HypPoints.tla")
+    if far is None or farpairs is None or dpairs is None:
+        raise core.MachineryFailure("no FAR / DPAIRS tables printed by HypPoints.tla")
     replay_far(run, n, far, farpairs)
     replay_near(run, n, near or [])
-    return r.emits
+    return r.emits, dpairs, hist
 
 
 def replay_near(run, n, near):
@@ -122,7 +136,9 @@ def replay_far(run, n, far, farpairs):
                     want = coords[m2]
                     # relative to the distance from the boundary, not to the coordinate itself: these points sit at
                     # 1 - |k| ~ 1/cosh^2 d from the unit sphere and a chart map may not collapse that gap
-                    ok = coords_equal(m2, got, want, 1e-9)
+                    # ball coordinates carry the point with conditioning cond = cosh^2 d(x, origin) (spec)
+                    cnd = np.array([f["cond"][0] / f["cond"][1] for f in far])
+                    ok = coords_equal(m2, got, want, 1e-9 + (64 * 2.3e-16 * cnd if m1 in ("klein", "poincare") else 0.0))
                     if m2 in ("klein", "poincare"):
                         gap_got = 1 - (got ** 2).sum(-1)
                         gap_want = 1 - (want ** 2).sum(-1)
@@ -136,19 +152,52 @@ def replay_far(run, n, far, farpairs):
     X = np.array([p[0] for p in farpairs], float)
     Y = np.array([p[1] for p in farpairs], float)
     want = np.array([-p[2][0] / p[2][1] for p in farpairs])
+    same = np.array([p[0] == p[1] for p in farpairs])
+    # the two points of every pair are supplied through their exact coordinates in every model (half-space: the
+    # coordinates the library itself reports, verified by the round trip above); the objects are FRESH, so this is the
+    # first distance call on them.  Ball coordinates of a point at distance d from the origin carry it with conditioning
+    # cond = cosh^2 d (spec), so the tolerance is scaled by it for those routes.
+    index = {tuple(f["x"]): i for i, f in enumerate(far)}
+    iu = np.array([index[tuple(p[0])] for p in farpairs])
+    iv = np.array([index[tuple(p[1])] for p in farpairs])
+    cond = np.array([f["cond"][0] / f["cond"][1] for f in far])
+    src = dict(coords)
     try:
         with np.errstate(all="ignore"):
-            d = np.asarray(H.Point(X.copy()).distance(H.Point(Y.copy())))
-        bad = ~(np.isfinite(d) & (np.abs(np.cosh(d) - want) <= 1e-8 * want))
-        same = np.array([p[0] == p[1] for p in farpairs])
-        bad |= same & ~(d <= 1e-5)
-    except Exception as ex:
-        run.violation(key + ":distance:raise", "raised:distance_far", dict(n=n, error="%s: %s" % (type(ex).__name__, ex)))
-        bad = np.zeros(len(farpairs), bool)
-    run.evaluations += len(farpairs)
-    for i in np.nonzero(bad)[0][:2]:
-        run.violation("%s:distance:%s:%s" % (key, farpairs[i][0], farpairs[i][1]), "distance_far",
-                      dict(n=n, x=farpairs[i][0], y=farpairs[i][1], lib=float(d[i]), spec_cosh=float(want[i])))
+            src["halfspace"] = np.asarray(H.Point(coords["projective"].copy()).coords("halfspace"), float)
+    except Exception:
+        pass                # reported by the conversion clause above
+    EPS = 2.3e-16
+    for m1 in src:
+        for m2 in src:
+            run.case(key=(key, "distance", m1, m2), action="distance_far")
+            a, b = src[m1][iu].copy(), src[m2][iv].copy()
+            a0, b0 = a.copy(), b.copy()
+            loose1 = 0.0 if m1 in ("projective", "hyperboloid") else 1.0
+            loose2 = 0.0 if m2 in ("projective", "hyperboloid") else 1.0
+            tol = 1e-8 + 256 * EPS * (loose1 * cond[iu] + loose2 * cond[iv])
+            try:
+                with np.errstate(all="ignore"):
+                    d = np.asarray(H.Point(a, model=m1).distance(H.Point(b, model=m2)))
+                    d_unit = float(H.Point(src[m1][iu[-1]].copy(), model=m1).distance(H.Point(src[m2][iv[-1]].copy(), model=m2)))
+            except Exception as ex:
+                run.violation("%s:distance:%s,%s:raise" % (key, m1, m2), "raised:distance_far", dict(n=n, models=[m1, m2], error="%s: %s" % (type(ex).__name__, ex)))
+                continue
+            run.evaluations += len(farpairs) + 1
+            fin = np.isfinite(d)
+            bad = fin & (np.abs(np.cosh(d) - want) > tol * want)
+            bad |= fin & same & ~(d <= 1e-5 + np.sqrt(2 * tol))
+            for clause, mask in (("distance_far.finite_not_nan", ~fin), ("distance_far.value", bad)):
+                for i in np.nonzero(mask)[0][:2]:
+                    run.violation("%s:distance:%s,%s:%s:%s" % (key, m1, m2, farpairs[i][0], farpairs[i][1]), clause,
+                                  dict(n=n, x=farpairs[i][0], y=farpairs[i][1], models=[m1, m2], lib=repr(float(d[i])), spec_cosh=float(want[i]),
+                                       given=[a0[i].tolist(), b0[i].tolist()]))
+            if not (np.isfinite(d_unit) and abs(np.cosh(d_unit) - want[-1]) <= tol[-1] * want[-1]):
+                run.violation("%s:distance:%s,%s:unit:%s:%s" % (key, m1, m2, farpairs[-1][0], farpairs[-1][1]), "distance_far.unit",
+                              dict(n=n, x=farpairs[-1][0], y=farpairs[-1][1], models=[m1, m2], lib=repr(d_unit), spec_cosh=float(want[-1])))
+            if not (np.array_equal(a, a0) and np.array_equal(b, b0)):
+                run.violation("%s:distance:%s,%s:input" % (key, m1, m2), "build.caller_array_unchanged",
+                              dict(n=n, models=[m1, m2], note="a coordinate array passed to Point(..., model=m) was written by the library"))
     run.sample(dict(kind="far point", n=n, point=far[-1]))
 
 
@@ -176,25 +225,46 @@ def replay_conversions(run, n, emits, rng):
         for shp in shapes:
             cnt = int(np.prod(shp))
             try:
-                p = H.Point(src[:cnt].reshape(shp + (src.shape[-1],)).copy(), model=m1)
+                # `given` is the caller's array: it is handed over as it is, must still hold the spec's coordinates
+                # afterwards, and building from it a second time must give the same point
+                given = src[:cnt].reshape(shp + (src.shape[-1],)).copy()
+                p = H.Point(given, model=m1)
                 got = np.asarray(p.coords(m2))
                 if got.shape[:-1] != shp:
                     run.violation(key + ":shape%r" % (shp,), "convert.shape", dict(n=n, frm=m1, to=m2, shape=shp, got=got.shape))
                     continue
                 ok = coords_equal(m2, got.reshape(cnt, -1), want[:cnt], tols[:cnt])
+                again = np.asarray(H.Point(given, model=m1).coords(m2))
+                ok_again = coords_equal(m2, again.reshape(cnt, -1), want[:cnt], tols[:cnt])
+                kept = np.array_equal(given.reshape(cnt, -1), src[:cnt])
             except Exception as ex:
                 run.violation(key + ":raise%r" % (shp,), "raised:convert", dict(n=n, frm=m1, to=m2, shape=shp, error="%s: %s" % (type(ex).__name__, ex)))
                 continue
-            run.evaluations += cnt
+            run.evaluations += 2 * cnt
             for i in np.nonzero(~ok)[0][:3]:
                 e = es[i]
                 run.violation(key + ":x=%s" % (e["x"],), "convert.value",
                               dict(n=n, x=e["x"], frm=m1, to=m2, given=src[i].tolist(), got=got.reshape(cnt, -1)[i].tolist(), spec=want[i].tolist(), shape=shp))
+            for i in np.nonzero(ok & ~ok_again)[0][:3]:
+                e = es[i]
+                run.violation(key + ":again:x=%s" % (e["x"],), "build.same_array_same_point",
+                              dict(n=n, x=e["x"], frm=m1, to=m2, given=src[i].tolist(), array_now=given.reshape(cnt, -1)[i].tolist(),
+                                   first=got.reshape(cnt, -1)[i].tolist(), second=again.reshape(cnt, -1)[i].tolist(), shape=shp))
+            if not kept:
+                i = int(np.nonzero((given.reshape(cnt, -1) != src[:cnt]).any(-1))[0][0])
+                run.violation(key + ":input:shape%r" % (shp,), "build.caller_array_unchanged",
+                              dict(n=n, frm=m1, to=m2, shape=shp, x=es[i]["x"], given=src[i].tolist(), array_now=given.reshape(cnt, -1)[i].tolist()))
         # unit objects (a sample)
         for i in rng.sample(range(k), min(k, 12)):
             try:
-                got = np.asarray(H.Point(src[i].copy(), model=m1).coords(m2))
+                given = src[i].copy()
+                got = np.asarray(H.Point(given, model=m1).coords(m2))
                 ok = got.shape == want[i].shape and coords_equal(m2, got, want[i], tols[i])[0]
+                if ok:
+                    again = np.asarray(H.Point(given, model=m1).coords(m2))
+                    if not (np.array_equal(given, src[i]) and coords_equal(m2, again, want[i], tols[i])[0]):
+                        run.violation(key + ":unit:again:x=%s" % (es[i]["x"],), "build.caller_array_unchanged",
+                                      dict(n=n, x=es[i]["x"], frm=m1, to=m2, given=src[i].tolist(), array_now=given.tolist(), second=again.tolist()))
             except Exception as ex:
                 ok, got = False, "%s: %s" % (type(ex).__name__, ex)
             run.evaluations += 1
@@ -229,6 +299,148 @@ def replay_conversions(run, n, emits, rng):
             run.violation("chain:n=%d:%s:x=%s" % (n, "->".join(chain), list(full[i])), "chain.value",
                           dict(n=n, chain=chain, x=list(full[i]), got=cur[i].tolist(), spec=want[i].tolist()))
     run.sample(dict(kind="conversion chain", n=n, chain=chain, points=len(full)))
+    return coords_of
+
+
+def replay_pairs_across_models(run, n, coords_of, dpairs):
+    """one metric: the two points of every pair of the DPAIRS table are supplied through their coordinates in two models
+    (all ordered pairs of models); the reported distance is the exact one whatever the models, zero (never NaN) when
+    both objects hold the same point"""
+    H = hyp()
+    models = ["projective", "klein", "hyperboloid", "poincare", "halfspace"]
+    ps = [(tuple(u), tuple(v), w, cd) for (u, v, w, cd) in dpairs
+          if all(m in coords_of.get(tuple(u), {}) for m in models) and all(m in coords_of.get(tuple(v), {}) for m in models)]
+    if not ps:
+        raise core.MachineryFailure("DPAIRS: no pair of the table has coordinates in the conversion LTS (n=%d)" % n)
+    want = np.array([w[0] / w[1] for (_, _, w, _) in ps])
+    same = np.array([u == v for (u, v, _, _) in ps])
+    # arccosh is square-root conditioned at 1: rounding of size eps * cond (spec: cond = sum of (x1/s)^2 of the two points)
+    # in cosh d is sqrt(2 eps cond) in d
+    zero_tol = np.maximum(1e-7, np.sqrt(16 * 2.3e-16 * np.array([cd[0] / cd[1] for (_, _, _, cd) in ps])))
+    key = "across:n=%d" % n
+    for m1 in models:
+        A0 = np.array([coords_of[u][m1] for (u, _, _, _) in ps])
+        for m2 in models:
+            B0 = np.array([coords_of[v][m2] for (_, v, _, _) in ps])
+            run.case(key=(key, m1, m2), action="distance_across_models")
+            a, b = A0.copy(), B0.copy()
+            try:
+                with np.errstate(all="ignore"):
+                    d = np.asarray(H.Point(a, model=m1).distance(H.Point(b, model=m2)))
+            except Exception as ex:
+                run.violation("%s:%s,%s:raise" % (key, m1, m2), "raised:distance", dict(n=n, models=[m1, m2], error="%s: %s" % (type(ex).__name__, ex)))
+                continue
+            run.evaluations += len(ps)
+            run.traces += len(ps)
+            fin = np.isfinite(d)
+            checks = (("distance.finite_not_nan", ~fin),
+                      ("distance.nonnegative", fin & (d < 0)),
+                      ("distance.zero_for_equal_points", fin & same & (d > zero_tol)),
+                      ("distance.value", fin & (np.abs(np.cosh(d) - want) > 1e-9 * want)))
+            for clause, mask in checks:
+                for i in np.nonzero(mask)[0][:2]:
+                    u, v, _, _ = ps[i]
+                    run.violation("%s:%s,%s:%s:x=%s:y=%s" % (key, m1, m2, clause, list(u), list(v)), clause,
+                                  dict(n=n, x=list(u), y=list(v), models=[m1, m2], given=[A0[i].tolist(), B0[i].tolist()],
+                                       lib_distance=repr(float(d[i])), spec_cosh=float(want[i])))
+            if not (np.array_equal(a, A0) and np.array_equal(b, B0)):
+                run.violation("%s:%s,%s:input" % (key, m1, m2), "build.caller_array_unchanged", dict(n=n, models=[m1, m2]))
+    run.nontrivial_count += int((~same).sum())
+    run.actions["distance across models"] = run.actions.get("distance across models", 0) + 25 * len(ps)
+    u, v, w, _ = ps[len(ps) // 3]
+    run.sample(dict(kind="distance across models", n=n, x=list(u), y=list(v), cosh=w, models="all 25 ordered pairs"))
+
+
+# ------------------------------------------------------------------------------------------
+# query histories on one live object (HypPoints.tla, HInit / HNext)
+# ------------------------------------------------------------------------------------------
+def replay_histories(run, n, hist, rng):
+    H = hyp()
+    pts, groups = {}, {}
+    for e in hist:
+        if e["k"] == "point":
+            pts[(tuple(e["x"]), e["chart"])] = e
+        else:
+            groups.setdefault((e["chart"], tuple(e["qs"])), []).append(tuple(e["x"]))
+    if not groups:
+        raise core.MachineryFailure("HypPoints.tla (history machine) emitted no history")
+    origin = H.Point.get_origin(n)
+
+    def value(q, out):
+        """projection of what a query handed out (read again at every later step)"""
+        if q == "origin_to":
+            return np.asarray((out @ origin).proj_data, float)
+        return np.asarray(out, float)
+
+    def execute(xs, chart, qs, unit):
+        """returns None or (clause, step, detail)"""
+        es = [pts[(x, chart)] for x in xs]
+        spec_c = np.array([rat(e["c"]) for e in es])
+        ideal = np.array([e["ideal"] for e in es])
+        tols = np.where(ideal, 2e-7, TOL)
+        zero_tol = np.maximum(1e-7, np.sqrt(32 * 2.3e-16 * np.array([e["cond"][0] / e["cond"][1] for e in es])))
+        given = spec_c[0].copy() if unit else spec_c.copy()       # the caller's array, handed over as it is
+        obj = H.Point(given, model=chart)
+        held = []
+        for step, q in enumerate(qs):
+            if q in ("projective", "klein", "hyperboloid", "poincare", "halfspace"):
+                out = obj.coords(q)
+            elif q == "dist_origin":
+                out = obj.distance(origin)
+            elif q == "dist_rebuilt":
+                out = obj.distance(H.Point(given, model=chart))
+            else:
+                out = obj.origin_to()
+            held.append((q, out))
+            # everything handed out so far, and the caller's own array, against the spec's values
+            for j, (qj, oj) in enumerate(held):
+                want = np.array([rat(e["vals"][qj]) for e in es])
+                got = value(qj, oj)
+                got = got.reshape(len(es), -1) if got.size == want.size else got
+                if qj in ("dist_origin", "dist_rebuilt"):
+                    dd = got.reshape(-1)
+                    ok = np.isfinite(dd) & (dd >= 0) & (np.abs(np.cosh(dd) - want[:, 0]) <= 1e-9 * want[:, 0])
+                    if qj == "dist_rebuilt":
+                        ok &= dd <= zero_tol
+                elif qj == "origin_to":
+                    ok = got.shape == want.shape and proj_equal(got, want, 1e-8)
+                else:
+                    ok = coords_equal(qj, got, want, tols) if got.shape == want.shape else np.zeros(len(es), bool)
+                ok = np.atleast_1d(ok)
+                if not ok.all():
+                    i = int(np.nonzero(~ok)[0][0])
+                    clause = "history.query_value" if j == step else "history.handed_out_value_changed_later"
+                    return (clause, step, dict(x=list(xs[i]), query=qj, asked_at_step=j, now_at_step=step, value_now=np.asarray(got)[i].tolist() if np.ndim(got) else repr(got),
+                                               spec=want[i].tolist(), note="distances: value is d, spec is cosh d" if qj.startswith("dist") else ""))
+            if not np.array_equal(np.asarray(given).reshape(len(es), -1), spec_c[:len(es)]):
+                return ("build.caller_array_unchanged", step, dict(x=list(xs[0]), given=spec_c[0].tolist(), array_now=np.asarray(given).reshape(len(es), -1)[0].tolist()))
+        # the caller's coordinates still build the same point
+        k = np.asarray(H.Point(given, model=chart).coords("klein"), float).reshape(len(es), -1)
+        want = np.array([rat(e["vals"]["klein"]) for e in es])
+        ok = coords_equal("klein", k, want, tols)
+        if not ok.all():
+            i = int(np.nonzero(~ok)[0][0])
+            return ("build.same_array_same_point", len(qs), dict(x=list(xs[i]), got_klein=k[i].tolist(), spec_klein=want[i].tolist()))
+        return None
+
+    for (chart, qs), xs in sorted(groups.items()):
+        xs = sorted(xs)
+        runs = [(xs, False)] + [([x], True) for x in rng.sample(xs, min(2, len(xs)))]
+        for sub, unit in runs:
+            key = "history:n=%d:build=%s:%s:%s" % (n, chart, ",".join(qs), "unit:x=%s" % (list(sub[0]),) if unit else "array")
+            run.case(key=key, action="history")
+            try:
+                with np.errstate(all="ignore"):
+                    bad = execute(sub, chart, qs, unit)
+            except Exception as ex:
+                bad = ("raised:history", -1, dict(error="%s: %s" % (type(ex).__name__, ex)))
+            run.evaluations += len(sub) * len(qs)
+            if bad:
+                run.violation(key, bad[0], dict(n=n, built_from=chart, queries=list(qs), step=bad[1], **bad[2]))
+        run.traces += len(xs)
+    run.actions["query history"] = run.actions.get("query history", 0) + sum(len(v) for v in groups.values())
+    (chart, qs), xs = sorted(groups.items())[len(groups) // 2]
+    run.sample(dict(kind="query history", n=n, built_from=chart, queries=list(qs), points=len(xs)))
 
 
 def closed_forms(H, P, Q):
@@ -340,9 +552,13 @@ def run(run, replay=None):
         "tolerance 1e-9 relative (1e-8 after chains of 4 conversions); sheet of hyperboloid coordinates not observed",
     ]
     conv = {1: 13, 2: 9, 3: 5, 4: 3} if quick else {1: 25, 2: 13, 3: 7, 4: 5, 5: 3}
+    bpair = {1: 13, 2: 9, 3: 5, 4: 3} if quick else {1: 25, 2: 13, 3: 5, 4: 3, 5: 2}
+    hist = {1: (13, 2), 2: (5, 2), 3: (3, 2), 4: (2, 2)} if quick else {1: (25, 3), 2: (7, 3), 3: (4, 3), 4: (3, 2), 5: (2, 2)}
     for n, B in conv.items():
-        emits = conversion_lts(run, n, B)
-        replay_conversions(run, n, emits, rng)
+        emits, dpairs, hs = conversion_lts(run, n, B, bpair[n], hist[n][0], hist[n][1])
+        coords_of = replay_conversions(run, n, emits, rng)
+        replay_pairs_across_models(run, n, coords_of, dpairs)
+        replay_histories(run, n, hs, rng)
     met = {1: 6, 2: 4, 3: 2} if quick else {1: 12, 2: 6, 3: 3, 4: 2}
     for n, B in met.items():
         replay_metric(run, n, B, rng)
